@@ -708,6 +708,8 @@ def evaluate_payload_template(input, context, template):
                 else:
                     k, v = evaluate(k, v, True)
                     target[k] = v
+        else:
+            target = template  # Primitive JSON values are immutable, return as is.
         return target
 
     if template == None or template == "":
